@@ -14,7 +14,8 @@
 (* negative configuration (their parts mix).                               *)
 EXTENDS Integers, Sequences, FiniteSets, TLC
 
-CONSTANTS Msgs, MaxParts, Refs, SameRef, MaxResend
+CONSTANTS Msgs, MaxParts, Refs, SameRef, MaxResend,
+          Echo       \* TRUE: a response carries the sequence identifier of its request (FALSE: a fresh one - negative)
 
 VARIABLES
   sub,       \* message -> [n |-> parts, ref |-> reference] for submitted messages
@@ -64,7 +65,7 @@ GwRecv ==
   /\ wire # <<>>
   /\ LET p == Head(wire) r == sub[p.m].ref n == sub[p.m].n IN
      /\ wire' = Tail(wire)
-     /\ back' = Append(back, p.sid)
+     /\ back' = Append(back, IF Echo THEN p.sid ELSE nextSid + 100)
      /\ IF n = 1
           THEN /\ delivered' = Append(delivered, [ref |-> r, parts |-> << <<p.m, 1>> >>])
                /\ UNCHANGED asm
